@@ -73,7 +73,10 @@ FAMILIES = {
     "bad-autolinks": lambda L: rep_to("<http://a b", L),
     "backslashes": lambda L: rep_to("\\", L), "escapes": lambda L: rep_to("\\a\\*", L), "hardbreaks": lambda L: rep_to("a  \n", L),
     "quote-nest": lambda L: rep_to("> ", L, tail="a"), "quote-marks": lambda L: rep_to(">", L), "quote-lines": lambda L: rep_to("> a\n", L),
-    "lazy-lines": lambda L: "> a\n" + rep_to("b\n", L), "quote-list-nest": lambda L: rep_to("> - ", L, tail="a"),
+    "lazy-lines": lambda L: "> a\n" + rep_to("b\n", L), "quote-heading-lazy": lambda L: rep_to("> # h\nb\n", L),
+    "quote-fence-lazy": lambda L: rep_to("> ```\n> x\n> ```\nb\n\n", L), "quote-list-lazy": lambda L: rep_to("> - a\nb\n\n", L),
+    "quote-then-list-nest": lambda L: "> " + rep_to("- ", L, tail="x"), "quote-ordered-nest": lambda L: rep_to("> 1. ", L, tail="x"),
+    "list-quote-nest": lambda L: rep_to("- > ", L, tail="x"), "ordered-quote-nest": lambda L: rep_to("1. > > ", L, tail="x"), "quote-list-nest": lambda L: rep_to("> - ", L, tail="a"),
     "list-nest": lambda L: rep_to("- ", L, tail="a"), "ordered-nest": lambda L: rep_to("1. ", L, tail="a"),
     "list-items": lambda L: rep_to("- a\n", L), "loose-items": lambda L: rep_to("- a\n\n", L), "empty-items": lambda L: rep_to("-\n", L),
     "list-stairs": lambda L: tri(L, lambda i: " " * (2 * i) + "- a\n"), "list-lazy": lambda L: "- a\n" + rep_to("b\n", L),
@@ -89,7 +92,7 @@ FAMILIES = {
     "unclosed-def-title": lambda L: "[a]: /u '" + rep_to("b\n", L), "def-then-lines": lambda L: "[a]: /u\n" + rep_to("b\n", L),
     "broken-defs": lambda L: rep_to("[a]: <\n", L), "label-long": lambda L: "[" + rep_to("a ", L) + "]: /u\n",
 }
-KNOWN_QUADRATIC = {"refdefs"}
+KNOWN_QUADRATIC = {"refdefs": "family:refdefs", "quote-heading-lazy": "family:quote-heading-lazy"}
 
 PRESETS = [
     ("commonmark", {"preset": "commonmark", "options": {}, "enable": [], "disable": [], "ruler2_off": []}),
@@ -154,7 +157,7 @@ def run(ctx) -> int:
     q = tier == "quick"
     L = int(os.environ.get("VERIF_C20_L", "700" if q else "12000"))
     mds = [(n, c, configs.make_md(c)) for n, c in PRESETS]
-    known = rep.known_match("family:refdefs")
+    known = {fam: rep.known_match(m) for fam, m in KNOWN_QUADRATIC.items()}
 
     # correspondence: guard state + pipeline on small instances of every family
     glines, gexp, gkeep = [], [], []
@@ -198,9 +201,9 @@ def run(ctx) -> int:
                 count["measurements"] += len(row)
                 table[f"{name}/{pn}"] = [list(r) for r in row]
                 if v:
-                    if name in KNOWN_QUADRATIC and known and ("multiplies the calls" in v["what"] or "Hang" in v["what"]):
+                    if name in KNOWN_QUADRATIC and known.get(name) and ("multiplies the calls" in v["what"] or "Hang" in v["what"]):
                         count["known"] += 1
-                        rep.known_finding(known)
+                        rep.known_finding(known[name])
                         continue
                     return {"family": name, "preset": pn, "config": cfg, "L": Lp, **v}
         return None
